@@ -6,6 +6,12 @@ Model side of the C14 line protocol (see harness/src/props/c14.rs):
   tri V A B C               -> ab=O bc=O ac=O eqab=B eqbc=B eqac=B | err
   any VA A VB B             the same through the `Nlri` enum, variants may differ
   anytri VA A VB B VC C
+  vcmp V TOKENS / TOKENS    two values of variant V given field by field (the `val` tokens of
+                            C05, built through serde in the harness – also values no parser
+                            returns: a foreign `afi`, label octets that are not whole labels,
+                            the non-normalised route type `Unimplemented(1..=5)`), typed and
+                            through the enum -> eq=B cmp=O rev=O hash=same|diff pcmp=ok
+  vtri V TOKENS / TOKENS / TOKENS   -> ab=O bc=O ac=O eqab=B eqbc=B eqac=B
 -/
 import Rc.Model.NlriOrd
 import Rc.Drv.C05
@@ -36,6 +42,26 @@ def pair (a b : AnyNlri) : String :=
 
 def triple (a b c : AnyNlri) : String :=
   s!"ab={ordStr (anyCmp a b)} bc={ordStr (anyCmp b c)} ac={ordStr (anyCmp a c)} eqab={anyEq a b} eqbc={anyEq b c} eqac={anyEq a c}"
+
+/-- split a token list at the `/` tokens -/
+def splitSlash (ws : List String) : List (List String) :=
+  ws.foldr (fun w acc => if w == "/" then [] :: acc else
+    match acc with
+    | g :: gs => (w :: g) :: gs
+    | [] => [[w]]) [[]]
+
+/-- one value given as `val` tokens; `none` = unreadable or not buildable (`bad-op`) -/
+def readAny (v : String) (toks : List String) : Option AnyNlri :=
+  match C05.variantOf v with
+  | some (f, false) =>
+    match (C05.famIo f).read toks with
+    | some n => if (C05.famIo f).buildable n then some ⟨f, none, n⟩ else none
+    | none => none
+  | some (f, true) =>
+    match (C05.famIo f).addpath.read toks with
+    | some (p, n) => if (C05.famIo f).addpath.buildable (p, n) then some ⟨f, some p, n⟩ else none
+    | none => none
+  | none => none
 
 def known (v : String) : Bool := (C05.variantOf v).isSome
 def okHex (h : String) : Bool := (bytesOfHex h).isSome
@@ -72,6 +98,14 @@ def handle (ws : List String) : String :=
     | _, .panic, _ => "panic"
     | _, _, .panic => "panic"
     | _, _, _ => "err"
+  | "vcmp" :: v :: rest =>
+    match (splitSlash rest).map (readAny v) with
+    | [some x, some y] => pair x y ++ " pcmp=ok"
+    | _ => "bad-op"
+  | "vtri" :: v :: rest =>
+    match (splitSlash rest).map (readAny v) with
+    | [some x, some y, some z] => triple x y z
+    | _ => "bad-op"
   | _ => "bad-op"
 
 end Rc.Drv.C14
